@@ -5,24 +5,29 @@
 //! OpenSSL (FFI) is cut one level below the opcua wrappers: HMAC -> position-sensitive stand-in, memcmp -> byte loop,
 //! AES cipher handle fabricated and `Crypter::new` failing (so the decrypt wrapper's own argument validation runs, the
 //! cipher does not). Oracle: no panic (Kani's built-in checks). Natively the same bytes run against real OpenSSL.
-use crate::c13_keys::{md_sha1, md_sha256, toy_hmac_vec};
+use crate::c13_keys::{md_sha1, md_sha256};
 use opcua::core::comms::secure_channel::{Role, SecureChannel};
 use opcua::crypto::SecurityPolicy;
 use opcua::types::{DateTime, DecodingOptions, MessageSecurityMode};
 
-pub fn bytes_eq(a: &[u8], b: &[u8]) -> bool {
-    if a.len() != b.len() {
-        return false;
+/// `openssl::memcmp::eq` (FFI): for a no-panic property the outcome is irrelevant, so it is ARBITRARY — the path after
+/// a "successful" verification is explored as well as the failing one. Loop-free on purpose: dropping an `io::Error`
+/// dispatches through `dyn Error` drop glue, which CBMC unwinds to the full bound for every candidate type, so these
+/// harnesses must keep `#[kani::unwind]` tiny (measured: unwind 22 -> no verdict in 10 min; unwind 5 -> seconds).
+#[cfg(kani)]
+pub fn memcmp_eq_any(a: &[u8], b: &[u8]) -> bool {
+    assert!(a.len() == b.len(), "openssl::memcmp::eq panics on slices of different length");
+    kani::any()
+}
+
+/// HMAC stand-in without loops: a constant digest of the right length.
+#[cfg(kani)]
+pub fn const_hmac_vec(digest: openssl::hash::MessageDigest, _key: &[u8], _data: &[u8]) -> Vec<u8> {
+    if digest.as_ptr() as usize == 1 {
+        vec![0x5Au8; 20]
+    } else {
+        vec![0x5Au8; 32]
     }
-    let mut i = 0;
-    let mut same = true;
-    while i < a.len() {
-        if a[i] != b[i] {
-            same = false;
-        }
-        i += 1;
-    }
-    same
 }
 
 /// Fabricated cipher handle (never dereferenced: every use is stubbed).
@@ -55,10 +60,10 @@ macro_rules! crypto_cut {
     ($(#[$m:meta])* pub fn $name:ident() $body:block) => {
         #[cfg(kani)]
         #[kani::proof]
-        #[kani::stub(::opcua::crypto::hash::hmac_vec, toy_hmac_vec)]
+        #[kani::stub(::opcua::crypto::hash::hmac_vec, const_hmac_vec)]
         #[kani::stub(::openssl::hash::MessageDigest::sha1, md_sha1)]
         #[kani::stub(::openssl::hash::MessageDigest::sha256, md_sha256)]
-        #[kani::stub(::openssl::memcmp::eq, bytes_eq)]
+        #[kani::stub(::openssl::memcmp::eq, memcmp_eq_any)]
         #[kani::stub(::openssl::symm::Cipher::aes_128_cbc, fake_cipher)]
         #[kani::stub(::openssl::symm::Cipher::aes_256_cbc, fake_cipher)]
         #[kani::stub(::openssl::symm::Cipher::block_size, cipher_block_size)]
@@ -97,19 +102,19 @@ macro_rules! msg_chunk {
 }
 
 // Sign mode, SHA-1 policy (signature 20 bytes): chunks shorter than, equal to and longer than header + signature
-msg_chunk!(c09_q_msg_sign_sha1_n16, SecurityPolicy::Basic128Rsa15, MessageSecurityMode::Sign, 16, 16, 40);
-msg_chunk!(c09_q_msg_sign_sha1_n30, SecurityPolicy::Basic128Rsa15, MessageSecurityMode::Sign, 30, 30, 40);
-msg_chunk!(c09_q_msg_sign_sha256_n24, SecurityPolicy::Basic256Sha256, MessageSecurityMode::Sign, 24, 24, 40);
-msg_chunk!(c09_t_msg_sign_sha256_n60, SecurityPolicy::Basic256Sha256, MessageSecurityMode::Sign, 60, 60, 70);
+msg_chunk!(c09_q_msg_sign_sha1_n16, SecurityPolicy::Basic128Rsa15, MessageSecurityMode::Sign, 16, 16, 5);
+msg_chunk!(c09_q_msg_sign_sha1_n30, SecurityPolicy::Basic128Rsa15, MessageSecurityMode::Sign, 30, 30, 5);
+msg_chunk!(c09_q_msg_sign_sha256_n24, SecurityPolicy::Basic256Sha256, MessageSecurityMode::Sign, 24, 24, 5);
+msg_chunk!(c09_t_msg_sign_sha256_n60, SecurityPolicy::Basic256Sha256, MessageSecurityMode::Sign, 60, 60, 5);
 // declared size smaller than the buffer (trailing bytes) and larger than it
-msg_chunk!(c09_q_msg_sign_sha1_size_below_buffer, SecurityPolicy::Basic128Rsa15, MessageSecurityMode::Sign, 48, 44, 60);
-msg_chunk!(c09_t_msg_sign_sha1_size_above_buffer, SecurityPolicy::Basic128Rsa15, MessageSecurityMode::Sign, 44, 48, 60);
+msg_chunk!(c09_q_msg_sign_sha1_size_below_buffer, SecurityPolicy::Basic128Rsa15, MessageSecurityMode::Sign, 48, 44, 5);
+msg_chunk!(c09_t_msg_sign_sha1_size_above_buffer, SecurityPolicy::Basic128Rsa15, MessageSecurityMode::Sign, 44, 48, 5);
 // SignAndEncrypt: ciphertext of a length that is / is not a multiple of the block size, and empty
-msg_chunk!(c09_q_msg_encrypt_sha1_n16_empty_ciphertext, SecurityPolicy::Basic128Rsa15, MessageSecurityMode::SignAndEncrypt, 16, 16, 40);
-msg_chunk!(c09_q_msg_encrypt_sha1_n37_ragged_ciphertext, SecurityPolicy::Basic128Rsa15, MessageSecurityMode::SignAndEncrypt, 37, 37, 50);
-msg_chunk!(c09_t_msg_encrypt_sha256_n48, SecurityPolicy::Basic256Sha256, MessageSecurityMode::SignAndEncrypt, 48, 48, 60);
+msg_chunk!(c09_q_msg_encrypt_sha1_n16_empty_ciphertext, SecurityPolicy::Basic128Rsa15, MessageSecurityMode::SignAndEncrypt, 16, 16, 5);
+msg_chunk!(c09_q_msg_encrypt_sha1_n37_ragged_ciphertext, SecurityPolicy::Basic128Rsa15, MessageSecurityMode::SignAndEncrypt, 37, 37, 5);
+msg_chunk!(c09_t_msg_encrypt_sha256_n48, SecurityPolicy::Basic256Sha256, MessageSecurityMode::SignAndEncrypt, 48, 48, 5);
 // mode None: everything is passed through
-msg_chunk!(c09_q_msg_none_n20, SecurityPolicy::None, MessageSecurityMode::None, 20, 20, 22);
+msg_chunk!(c09_q_msg_none_n20, SecurityPolicy::None, MessageSecurityMode::None, 20, 20, 5);
 
 /// An OPN chunk naming a real policy with a null / symbolic-length sender certificate and thumbprint, on a fresh server channel.
 crypto_cut! {
